@@ -238,9 +238,56 @@ def _read_header(fmt, folder, stem, table):
     try:
         sheet = wb.sheet(name).set_schema_loader(HeadingRowSchemaLoader())
         probes = list(table[0]) if table else []
-        return [S(k) for k in probes], _read(sheet, probes)
+        first = _read(sheet, probes)
     finally:
         wb.close()
+    return [S(k) for k in probes], _later_readings(fmt, path, probes, first)
+
+
+def _later_readings(fmt, path, probes, first):
+    """The rows of the same file collected two other ways and asked by name only AFTERWARDS: (A) through one chained expression, the
+    Sheet being a temporary that is gone before any cell is looked at; (B) from a held Sheet to which ANOTHER schema (the same
+    names, the columns in reverse order) is bound once the rows are collected.  A row answers by name from the schema it was
+    delivered with.  Where one of these readings differs from the first, it is the one reported."""
+    import gc
+    from stingray.workbook import HeadingRowSchemaLoader
+    from stingray.schema_instance import SchemaMaker
+    if first[0] != 0 or not probes or len(set(probes)) != len(probes):
+        return first
+
+    def by_name(rows):
+        return [[observe_call(lambda k=k, row=row: row[k].value(), _val) for k in probes] for row in rows]
+
+    def reading_a():
+        wb, name = _open(fmt, path)
+        try:
+            rows = list(wb.sheet(name).set_schema_loader(HeadingRowSchemaLoader()).rows())
+            gc.collect()
+            return by_name(rows)
+        finally:
+            wb.close()
+
+    def reading_b():
+        wb, name = _open(fmt, path)
+        try:
+            sheet = wb.sheet(name).set_schema_loader(HeadingRowSchemaLoader())
+            rows = list(sheet.rows())
+            n = len(probes)
+            sheet.set_schema(SchemaMaker().from_json({"type": "object", "properties": {
+                k: {"title": k, "type": "string", "position": n - 1 - i} for i, k in enumerate(probes)}}))
+            return by_name(rows)
+        finally:
+            wb.close()
+
+    expected = [r[2] for r in first[1]]
+    for reading in (reading_a, reading_b):
+        got = observe_call(reading, lambda v: v)
+        if got[0] != 0:
+            return got
+        if got[1] != expected:
+            return [0, [[r[0], r[1], names] for r, names in zip(first[1], got[1])] if len(got[1]) == len(expected) else
+                    [[[], [1, 0], names] for names in got[1]]]
+    return first
 
 
 def _read_with_schema(fmt, path, make_schema, probes):
